@@ -26,6 +26,7 @@ import Driver.ZWidenH
 import Driver.XDomH
 import Driver.RProgH
 import Driver.InterTDH
+import Driver.ArrXH
 
 /-!
   crabdrv : line-protocol driver.  Reads cases on stdin, one per line
@@ -58,7 +59,7 @@ def dispatch (comp op : String) (args res : List Sexp) : Verdict :=
   | "dom2" => handleDom2 op args res
   | "crawl" => handleCrawl op args res
   | "rgn" => handleRgn op args res
-  | "arr" => handleArr op args res
+  | "arr" => handleArrX op args res
   | "inter" => handleInter3 op args res
   | "zw" => handleZw op args res
   | "xdom" => handleXDom op args res
